@@ -119,8 +119,8 @@ HistoryIndependent ==
 (* and the same question asked twice in one history is answered twice the same way *)
 AnswerOfLast == hist # <<>> => ans = Answer(hist[Len(hist)])
 
-(* the model's own answers fit the rest of the oracle *)
-AnswersFitOracle ==
+(* the model's own answers fit the rest of the oracle (constant-level: checked once as an assumption) *)
+ASSUME AnswersFitOracle ==
     /\ \A mt \in MolTypes : \A S \in BaseSets(mt) : NucWhatAmb(mt, S) = Encode(mt, S)
     /\ \A x \in ProtSyms : ProtWhatAmb(ProtResolve(x)) = x
     /\ DegTranslate(1, Canon1) = Translate(1, Canon1, 0)
